@@ -2,16 +2,26 @@
 
 from contracts.knxip_contract import KNXIP_STUBS, ParsedFrame
 from contracts.world import Holder
-from pyvc.api import Bytes, Obj, ghost, lemma, unstubbed
+from pyvc.api import Bytes, Obj, ghost, lemma, nondet, unstubbed
+from xknx.exceptions import CouldNotParseKNXIP
 from xknx.io.transport.tcp_transport import TCPTransport
 
 _REAL_TCP_CB = TCPTransport.data_received_callback
 
 
 def _handle_recorder(self, knxipframe, source):
-    """Contract stub of KNXIPTransport.handle_knxipframe for this lemma (callbacks are proved not to
-    raise in their own properties): records the delivery."""
+    """Contract stub of handle_knxipframe for the UDP lemma (callbacks are proved not to raise in their
+    own properties): records the delivery."""
     ghost("delivered").append(knxipframe)
+
+
+def _handle_recorder_tcp(self, knxipframe, source):
+    """Contract stub of handle_knxipframe on TCP transports: records the delivery; the SecureSession
+    override may refuse a frame with CouldNotParseKNXIP (a SecureWrapper before the session is
+    initialized - C29), which must not escape the stream callback either."""
+    ghost("delivered").append(knxipframe)
+    if nondet(2):
+        raise CouldNotParseKNXIP("refused by the secure session (contract)")
 
 
 def _tcp_cb_contract(self, raw):
@@ -26,7 +36,7 @@ def _tcp_cb_contract(self, raw):
 
 TCP = Obj(TCPTransport, _buffer=Bytes(max_len=70000), remote_hpai=Obj(Holder), callbacks=[], transport=None)
 STUBS = KNXIP_STUBS + [
-    (TCPTransport, "handle_knxipframe", _handle_recorder),
+    (TCPTransport, "handle_knxipframe", _handle_recorder_tcp),
     (TCPTransport, "data_received_callback", _tcp_cb_contract),
 ]
 
